@@ -115,6 +115,18 @@ pub fn check_stream(ls: &LangSet, code: &str, toks: &[IdTok], t: f64) -> (usize,
             return (occs.len(), Some(format!("{} in occurrence {}", m, o.show())));
         }
     }
+    // the lazy entry point reports occurrences too: same invariants on what find_numbers_iter yields, in the order it yields
+    let lazy = ls.api(code).find_iter_first(toks, t, usize::MAX);
+    let mut prev_end = 0usize;
+    for (i, o) in lazy.iter().enumerate() {
+        if i > 0 && o.start < prev_end {
+            return (occs.len(), Some(format!("find_numbers_iter: occurrences overlap or are out of order: {} then {}", lazy[i - 1].show(), o.show())));
+        }
+        prev_end = o.end;
+        if let Some(m) = check_occurrence(code, toks, o) {
+            return (occs.len(), Some(format!("find_numbers_iter: {} in occurrence {}", m, o.show())));
+        }
+    }
     (occs.len(), None)
 }
 
@@ -181,7 +193,7 @@ pub fn run(ctx: &Ctx) -> Outcome {
     if !ctx.quick() {
         super::legs::fuzz_leg(ctx, &mut rep, 45);
     }
-    let rule = "cases = every stream of 1..4 (thorough 1..5) tokens over a 16-word alphabet per language (one word per grammar / policy class; counter exhaustive_small_alphabet_streams) at thresholds 0 and 10, and grammar-noise token streams (number words 41%, ordinal forms 8%, conjunction 6%, separator 5%, linking 8%, fillers 16%, punctuation 12%, zero 4%, 12% of number slots replaced by a complete spelled number), two thirds of them with whitespace/hyphen tokens, random case and random separation / not-a-number hints; each stream scanned at 9 thresholds (incl. inf, NaN, negative); non-trivial = stream for which at least one occurrence was reported and checked (span, word boundaries, numeral grammar, value = reading, ordinal flag <=> marker)";
+    let rule = "cases = every stream of 1..4 (thorough 1..5) tokens over a 16-word alphabet per language (one word per grammar / policy class; counter exhaustive_small_alphabet_streams) at thresholds 0 and 10, and grammar-noise token streams (number words 41%, ordinal forms 8%, conjunction 6%, separator 5%, linking 8%, fillers 16%, punctuation 12%, zero 4%, 12% of number slots replaced by a complete spelled number), two thirds of them with whitespace/hyphen tokens, random case and random separation / not-a-number hints; each stream scanned at 9 thresholds (incl. inf, NaN, negative); every check is applied to the result of find_numbers and to what find_numbers_iter yields, in the order it yields; non-trivial = stream for which at least one occurrence was reported and checked (span, word boundaries, numeral grammar, value = reading, ordinal flag <=> marker)";
     finish(ctx, rep, rule, &["ordinal marker alphabets per language are taken from the property statement and the library documentation (en st/nd/rd/th(s), fr er/ère/ème(s), es/pt º ª ᵒˢ ᵃˢ (.ᵉʳ), it º ª, de '.', nl e)"], vec![])
 }
 
